@@ -43,7 +43,7 @@ PROBES = {
     'C16': ['redirect.301', 'redirect.302', 'redirect.303', 'redirect.307', 'redirect.308', 'cross_host_redirect', 'cross_scheme_redirect',
             'repeat_redirect_cross_host', 'userinfo_url', 'idn_host', 'ipv6_host', 'ipv4_host', 'nondefault_port', 'cookie_set',
             'cookie_sent', 'foreign_domain_cookie', 'auth_challenge', 'auth_sent', 'referer_https_to_http', 'encoded_path',
-            'relative_location', 'keepalive_reuse', 'proxy', 'proxy_absolute_form', 'proxy_connect', 'idle_close', 'followup_visit'],
+            'relative_location', 'keepalive_reuse', 'proxy', 'proxy_absolute_form', 'proxy_connect', 'idle_close', 'followup_visit', 'referrer_with_userinfo'],
     'C18': ['redirect_cycle', 'unbounded_chain', 'limit_reached', 'perpetual_401', 'missing_location', 'bad_location', 'max_redirect_0',
             'server_5xx', 'reset', 'stall_timeout', 'auth_retry'],
 }
@@ -259,7 +259,11 @@ def run(tape, prop, tier):
     referrer = None
     if tape.chance(1, 3, 'referrer'):
         ref_t = Target(tape, simple=True)
-        referrer = '%s://%s%s' % (ref_t.scheme, ref_t.host_header, ref_t.wire_target)
+        # (the referring page's URL may carry user:password - as wpull stores it for the parent of a link)
+        ref_ui = 'refuser:refpass@' if tape.chance(1, 3, 'referrer.userinfo') else ''
+        referrer = '%s://%s%s%s' % (ref_t.scheme, ref_ui, ref_t.host_header, ref_t.wire_target)
+        if ref_ui:
+            r.probes['referrer_with_userinfo'] += 1
     strategy = 'normal'
     if adversarial:
         strategy = tape.choice(('cycle', 'chain', 'mixed', 'missing_location', 'bad_location', 'perpetual_401', 'perpetual_5xx',
@@ -396,6 +400,11 @@ def run(tape, prop, tier):
                               'hop %d (%s): cookie %s set by %s (Domain=%r) sent to %s' % (hop, hop_kind, name, setter, domain, here))
         # referer
         for rv in fd.get('referer', []):
+            # RFC 7231 5.5.2: no userinfo (nor fragment) in Referer - a login of one host must not travel to another
+            mref = re.match(r'^[a-z]+://[^/@]*@([^/:]*)', rv, re.I)
+            if mref and mref.group(1).lower() != origin[2].lower():
+                r.violate('C16', 'credential-leak', 'referer-userinfo:' + hop_kind, 'hop %d: Referer %r carries the user:password of the referring URL (sent to %s)'
+                          % (hop, rv[:80], origin[2]))
             # judged on the first hop only, where the processor decides about the referrer; what a redirect
             # hop does with the Referer field is not part of the property statement
             if hop == 0 and rv.lower().startswith('https://') and origin[0] == 'http':
